@@ -5,7 +5,7 @@ REGISTRY["C37"] = l2("C37", "c37_tpid", ["harness/l0/c37_tpid_shim.c"], ["harnes
           "harness/l0/c37_tpid_shim.c (one call-through per registry operation, rankified with the library)"],
     bounds="component part (55% of the runs): 1 rank, 2-4 sim-threads; cluster part: 2-4 ranks x 1-3 sim-threads (<= 8 threads); 1-3 epochs of 3-16 operations "
            "(reserve incl. bulk reservations of up to 200, register, unregister, re-register, lookup of held / free / never-reserved identifiers), identifiers up to ~600 per rank "
-           "(9 doublings of the array), epochs separated by a collective parsec_taskpool_sync_ids with concurrent lookups; MPI initialised or not (1 rank); "
+           "(9 doublings of the array), epochs separated by a collective parsec_taskpool_sync_ids with concurrent lookups and, in half of the sync epochs, concurrent reserve / register / unregister by the other threads of the rank (the next-identifier comparison is skipped for an epoch with a concurrent reservation); MPI initialised or not (1 rank); "
            "per-identifier WGL linearizability + distinct identifiers + quiescent sweep of all identifiers + equal next identifier after sync; "
            "identifier 0 is only looked up with --knob id0=1",
     quick=(60, 200000), thorough=(900, 20000000), engine="simcore-L0+L2",
